@@ -37,6 +37,7 @@ type Obl struct {
 	Model  map[string]string
 	File   string
 	ExpectSat bool // vacuity probes: expected to be satisfiable
+	Sweep  bool // obligation of the zero-annotation safety sweep
 	PkgDir string
 }
 
@@ -201,6 +202,14 @@ func (u *Unit) oblige(kind, label string, pos token.Pos, st *State, goal string,
 	name := u.name + "#" + kind
 	if label != "" {
 		name += "." + label
+	}
+	if u.contract != nil && u.contract.Sweep {
+		// named by the source line, not by an ordinal (see sweep_safety.go)
+		k := kind
+		if kind == "nopanic" {
+			k = "nopanic.assert"
+		}
+		name = u.name + "#" + k + "[" + u.lineLabel(u.posStr(pos)) + "]"
 	}
 	// make unique
 	base := name
